@@ -2420,3 +2420,86 @@ func (c *Ctx) r1017() {
 		}
 	}
 }
+
+// R10.18: the length of a rune's encoding is tested for -1 before it is used as a length.
+func (c *Ctx) r1018() {
+	const rule = "R10.18"
+	c.R.Rule(rule, "utf8.RuneLen returns -1 for a value that is not a valid code point to encode (surrogate halves U+D800–U+DFFF, values above U+10FFFF). Used as a length it moves a cursor backwards: `i += m; n -= m` in js.replaceEscapes then slices b[start:i] with start > i — a panic for `\"\\\\t\\\\uDFFF\"` — or truncates the literal. From every assignment `m := utf8.RuneLen(…)` in the library no path reaches a use of m in arithmetic, an index or a slice bound without passing a comparison of m with a constant below 1")
+	n := 0
+	for _, rel := range libPkgs {
+		pk := c.P.Pkg(rel)
+		if pk == nil {
+			continue
+		}
+		info := pk.TypesInfo
+		for _, fd := range load.FuncDecls(pk) {
+			if fd.Body == nil {
+				continue
+			}
+			var g *flow.Graph
+			ast.Inspect(fd.Body, func(x ast.Node) bool {
+				as, ok := x.(*ast.AssignStmt)
+				if !ok || len(as.Lhs) != 1 || len(as.Rhs) != 1 {
+					return true
+				}
+				ce, ok := ast.Unparen(as.Rhs[0]).(*ast.CallExpr)
+				if !ok || calleeName(info, ce) != "unicode/utf8.RuneLen" {
+					return true
+				}
+				id, ok := as.Lhs[0].(*ast.Ident)
+				if !ok {
+					return true
+				}
+				obj := info.Defs[id]
+				if obj == nil {
+					obj = info.Uses[id]
+				}
+				if obj == nil {
+					return true
+				}
+				n++
+				if g == nil {
+					g = c.graph(pk, fd)
+				}
+				from := g.NodeOf(as)
+				mentions := func(e ast.Node) bool {
+					hit := false
+					ast.Inspect(e, func(z ast.Node) bool {
+						if zid, ok := z.(*ast.Ident); ok && info.Uses[zid] == obj {
+							hit = true
+						}
+						return true
+					})
+					return hit
+				}
+				tested := func(q *flow.Node) bool {
+					if (q.Kind != flow.KTrue && q.Kind != flow.KFalse) || q.Of == nil || q.Of.Kind != flow.KCond {
+						return false
+					}
+					be, ok := ast.Unparen(q.Of.Expr).(*ast.BinaryExpr)
+					if !ok || !mentions(be) {
+						return false
+					}
+					for _, side := range []ast.Expr{be.X, be.Y} {
+						if v, isK := intConst(info, side); isK && v < 1 {
+							return true
+						}
+					}
+					return false
+				}
+				uses := func(q *flow.Node) bool {
+					if q == from || q.Kind == flow.KCond {
+						return false
+					}
+					a := q.Ast()
+					return a != nil && mentions(a)
+				}
+				p := g.Path(flow.Search{From: []*flow.Node{from}, Goal: uses, Avoid: tested})
+				c.R.Check(p == nil, rule, fmt.Sprintf("%s.%s/%s = utf8.RuneLen(…)#%d is tested before it is used as a length", pk.Name, load.FuncName(fd), id.Name, n), c.pos(as), "compared with -1 (or 0) first",
+					"the result of utf8.RuneLen is used as a length without a test for -1: for a surrogate half the cursor moves backwards and the following slice expression panics or cuts the string: "+pathStr(c, g, p))
+				return true
+			})
+		}
+	}
+	c.R.Floor(rule, "results of utf8.RuneLen bound to a variable", n, 1)
+}
